@@ -566,3 +566,10 @@ mod test {
         assert_eq!(result_12, expected_12);
     }
 }
+
+/// Verification hooks: the scalar and vector edge kernels, re-exported unchanged.
+#[cfg(feature = "verif-hooks")]
+pub mod verif_hooks {
+    pub use super::scalar_impl::process;
+    pub use super::simd_impl::process_simd;
+}
